@@ -712,6 +712,14 @@ def le_u32_source(W, t):
                 if len(cp) == 1:
                     return values.strip_payload(W.expand(cp[0]))
                 return None
+            if isinstance(src, tuple) and src and src[0] == "agg" and src[1] == "array" and len(src[2]) == 4:
+                # [b[c], b[c+1], b[c+2], b[c+3]]: the same four bytes as b[c..c+4]
+                es = [values.strip_payload(W.expand(x)) for x in src[2]]
+                if all(isinstance(x, tuple) and x and x[0] == "idx" and x[1] == es[0][1] and x[2][0] == "int" for x in es) and \
+                        [x[2][1] for x in es] == list(range(es[0][2][1], es[0][2][1] + 4)):
+                    c = es[0][2][1]
+                    return ("index", es[0][1], ("agg", "core::ops::range::Range::Range", (("int", c), ("int", c + 4)), ("start", "end")))
+                return None
             return src
         if nm == "read_u32" and t[2]:
             if not any("LittleEndian" in str(x) or "LE" == str(x).split("::")[-1] for x in ([t[1]] + list(_substs_of(W, t)))):
